@@ -6,6 +6,7 @@
 // type minus one field (skipping; with DisallowUnknownFields it must fail)}.
 // Encode direction: every value of a reflect-generated Go type universe (depth <= d) x {file,
 // network} x {value, pointer}; output judged by the independent reader and the documented mapping.
+// Call histories (history.go): every sequence of <= K entry-point calls, each judged on its own.
 package main
 
 import (
@@ -355,6 +356,11 @@ func main() {
 	decodeDirection(nFull, nRed, dl)
 	encodeDirection(depth, dl.Add(30*time.Second))
 	catalogue()
+	if rep.Thorough() {
+		histories(5)
+	} else {
+		histories(4)
+	}
 	rep.Extra("nodes_full_alphabet", nFull)
 	rep.Extra("nodes_reduced_alphabet", nRed)
 	rep.Extra("type_depth", depth)
@@ -431,6 +437,10 @@ func replay() {
 		}
 	case "catalogue":
 		catalogue()
+	case "history":
+		var c HistCase
+		json.Unmarshal(rp.Case, &c)
+		replayHistory(c)
 	default:
 		engine.HarnessError("unknown case kind %q", probe.Kind)
 	}
